@@ -1515,7 +1515,8 @@ fn gen_view(rng: &mut Rng, depth: u32) -> J {
                 0 => {}
                 1 => f.push(("children".to_string(), gen_scalar(rng))),
                 _ => {
-                    let n = rng.below(4);
+                    // a single child is the case the spacing arithmetic treats apart: a third of the flexes
+                    let n = if rng.chance(1, 3) { 1 } else { rng.below(4) };
                     let ch: Vec<J> = (0..n)
                         .map(|_| {
                             if rng.chance(1, 2) {
@@ -1681,6 +1682,44 @@ pub fn generate(rng: &mut Rng, n: usize, tier: &str) -> Vec<Value> {
         v.push(json!({"kind": "view", "what": "view", "doc": j_to_spec(&doc)}));
         let doc = obj(vec![("type", js("flex")), ("justify", js(justify))]);
         v.push(json!({"kind": "view", "what": "view", "doc": j_to_spec(&doc)}));
+    }
+    // the spacing block of flex_layout: every justify value x 0..3 children x the three forms of a child (bare view,
+    // {view}, {view, flex}) x both directions; layout_render lays each out under constraints with leftover space
+    // along the main axis (loose 5x20, 3x200, unbounded) and without (0x0, 1x1, tight)
+    for justify in ["start", "center", "end", "space-between", "space-around", "space-evenly"] {
+        for direction in ["horizontal", "vertical"] {
+            for n in 0..4usize {
+                for form in 0..3u32 {
+                    if n == 0 && form > 0 {
+                        continue;
+                    }
+                    let leaf = |i: usize| obj(vec![("type", js("text")), ("text", js(["ab", "c", "xyz"][i % 3]))]);
+                    let kids: Vec<J> = (0..n)
+                        .map(|i| match form {
+                            0 => leaf(i),
+                            1 => obj(vec![("view", leaf(i))]),
+                            // the factor on the first child only, so that flex and non-flex children mix
+                            _ => {
+                                if i == 0 {
+                                    obj(vec![("view", leaf(i)), ("flex", J::F(1.0))])
+                                } else {
+                                    obj(vec![("view", leaf(i))])
+                                }
+                            }
+                        })
+                        .collect();
+                    let flex = obj(vec![("type", js("flex")), ("direction", js(direction)), ("justify", js(justify)), ("children", J::A(kids))]);
+                    v.push(json!({"kind": "view", "what": "view", "doc": j_to_spec(&flex)}));
+                    if n == 1 {
+                        // and below a container / a tag, where the constraint is the parent's
+                        let boxed = obj(vec![("type", js("container")), ("child", flex.clone())]);
+                        v.push(json!({"kind": "view", "what": "view", "doc": j_to_spec(&boxed)}));
+                        let tagged = obj(vec![("type", js("tag")), ("tag", J::Null), ("view", flex)]);
+                        v.push(json!({"kind": "view", "what": "view", "doc": j_to_spec(&tagged)}));
+                    }
+                }
+            }
+        }
     }
     // glyphs that cannot be rasterised (known finding C19-glyph-rasterize), and the cache / handler configuration
     for doc in [
